@@ -483,6 +483,25 @@ fn main() {
                 cur = next;
             }
         }
+        "chars" => {
+            // every character on which case folding or Latin normalization acts (directly, or on its folded form), alone and behind
+            // an ASCII letter, under every CaseMatching x Normalization setting: the per-character bookkeeping of the grapheme loop
+            // (which of folding and normalization sees the character first) is only visible on a few dozen code points
+            use nucleo_matcher::chars::{normalize, to_lower_case};
+            for cp in 0x80u32..0x30000 {
+                let Some(c) = char::from_u32(cp) else { continue };
+                let l = to_lower_case(c);
+                if l == c && normalize(c) == c && normalize(l) == l {
+                    continue;
+                }
+                for case in 0..3 {
+                    for norm in 0..2 {
+                        p_line(&mut out, case, norm, "parse", &[c], None, &mut scratch);
+                        p_line(&mut out, case, norm, "new:0", &['a', c], None, &mut scratch);
+                    }
+                }
+            }
+        }
         "score" => {
             let count: usize = args[2].parse().unwrap();
             let shard: u64 = args.get(3).map(|s| s.parse().unwrap()).unwrap_or(0);
